@@ -247,8 +247,14 @@ func ruleR03_5(c *Check) {
 			gs := w.Guards(pe, as)
 			okg := len(gs) == 1 && gs[0].Val
 			if okg {
+				// the framing flag: a boolean local of commitAndSend (the same one that guards the end marker)
 				id, isID := gs[0].Cond.(*ast.Ident)
-				okg = isID && id.Name == "keepTogether"
+				okg = false
+				if isID {
+					if v, isV := w.Use(id).(*types.Var); isV && !v.IsField() && types.Identical(v.Type(), types.Typ[types.Bool]) {
+						okg = true
+					}
+				}
 			}
 			r.Check(okg, pe, "bitTxn set exactly under keepTogether", as, "bitTxn assignment guarded by other conditions")
 		}
